@@ -581,6 +581,57 @@ fn case_close_with_live_iterator(out: &mut CaseOut, rng: &mut Rng) {
     out.sample = Some(json!({"family": "close-with-live-iterator", "ctx": ctx}));
 }
 
+/// An application that has a logger installed at Info level: every log statement of raindb is
+/// formatted. The database is opened, filled, read (the shared block cache fills up), closed and
+/// opened again with the same options while log records are evaluated: every call still has to
+/// return in bounded time.
+fn case_open_with_logging(out: &mut CaseOut, rng: &mut Rng) {
+    let d = director();
+    d.reset(rng.next_u64());
+    let cfg = gen::Config { memtable: 4096, file: 1 << 20, block: *rng.pick(&[64usize, 128]), reuse: rng.chance(0.5) };
+    let fs = SimFs::from_image(&dbutil::root_image());
+    let mut sess = Session::new(fs, cfg);
+    if let Err(e) = sess.open() {
+        out.violate("C09/open-failed", json!({"error": e}));
+        return;
+    }
+    let pool = gen::key_pool(rng, KeyFamily::Ascii, 300);
+    for (i, k) in pool.iter().enumerate() {
+        let _ = sess.put(k, &gen::tagged_value(rng, &format!("v{i}:"), 60));
+    }
+    sess.compact(None, None);
+    sess.wait_quiescent(Duration::from_secs(20));
+    for k in &pool {
+        let _ = sess.get(k);
+    }
+    sess.close();
+    let bytes0 = watch::set_log_evaluation(log::LevelFilter::Info);
+    watch::set_call_limit(Duration::from_secs(25));
+    let t0 = Instant::now();
+    let reopened = sess.open();
+    let open_ms = t0.elapsed().as_millis() as u64;
+    if reopened.is_ok() {
+        for k in pool.iter().take(40) {
+            let _ = sess.get(k);
+        }
+        let _ = sess.put(b"after-reopen", b"x");
+        sess.compact(None, None);
+        sess.close();
+    }
+    let bytes1 = watch::set_log_evaluation(log::LevelFilter::Off);
+    watch::set_call_limit(Duration::from_secs(60));
+    if let Err(e) = reopened {
+        out.violate("C09/open-failed/with-logging", json!({"error": e}));
+    }
+    out.max("open_with_logging_ms", open_ms);
+    out.add("log_bytes_formatted", bytes1 - bytes0);
+    judge_bg_panics(out, "C09");
+    if bytes1 > bytes0 {
+        out.nontrivial(format!("open-with-logging/block{}/reuse{}", cfg.block, cfg.reuse as u8));
+    }
+    out.sample = Some(json!({"family": "open-with-logging", "config": cfg.describe(), "reopen_ms": open_ms, "log_bytes_formatted": bytes1 - bytes0}));
+}
+
 /// Degenerate configurations: a memtable budget of a few bytes (smaller than what an empty memtable
 /// reports as its own footprint), files and blocks of a few bytes. Every call still has to return.
 fn case_degenerate_config(out: &mut CaseOut, rng: &mut Rng, idx: u64) {
@@ -624,6 +675,7 @@ pub fn run_case(tier: &str, seed: u64, idx: u64) -> CaseOut {
     match idx % 6 {
         2 if idx % 12 == 8 => case_degenerate_config(&mut out, &mut rng, idx),
         3 if idx % 12 == 9 => case_close_with_live_iterator(&mut out, &mut rng),
+        4 if idx % 12 == 10 => case_open_with_logging(&mut out, &mut rng),
         0 if idx % 12 == 6 => case_flush_into_gap(&mut out, &mut rng),
         1 if idx % 12 == 7 => case_close_with_queued_task(&mut out, &mut rng),
         0 => case_descriptors(&mut out, &mut rng),
